@@ -63,7 +63,7 @@ Eff(e) ==
     [] e.ev = "noimage" -> <<ItemsNoImage(e), img, st>>
     [] e.ev = "pixels"  -> <<ItemsPixels(e), img, st>>
     [] e.ev = "draw"    -> <<ItemsDraw(e), img, StatAfterDraw(e)>>
-    [] e.ev = "panic"   -> <<<<>>, img, st>>     \* totality is C08's business; counted by the recorder
+    [] e.ev = "panic"   -> << <<[codes |-> {"library_call_panicked"}, msg |-> e.msg, loc |-> e.loc]>>, img, st>>   \* a call that panics did not return the promised result
 
 Flush(case, a) ==
   IF a = <<>> THEN TRUE
